@@ -77,4 +77,21 @@ func init() {
 			return jobs
 		},
 	})
+	register(&PropSpec{
+		ID: "C10", Level: "exploration",
+		Rule:        "codec level: generated values (10 content classes, sizes 1..4 MB incl. the 256/10K thresholds) through CCompress->DecompressSafe/CDecompressSafe and Compress(level 1,3)->DecompressSafe (+level 3 -> CDecompressSafe); hostile inputs (random bytes, mutated and truncated valid streams, self-consistent headers with random payload and arbitrary claimed size) to both safe decompressors in an asan-instrumented child, each input written to disk before the call; store level: see db.c10 events; distinct = (content class x size class x compressed/stored) and (hostile kind x outcome) signatures",
+		Assumptions: []string{"asan instruments quicklz.c (cgo, go build -asan); heap damage that asan's red zones do not see is not detected"},
+		Plan: func(tier string, seed uint64) []Job {
+			var jobs []Job
+			codec, hostile, n := 150, 600, 8
+			if tier == "thorough" {
+				codec, hostile, n = 1500, 30000, 14
+			}
+			for i := 0; i < n; i++ {
+				jobs = append(jobs, Job{Variant: "asan", Mode: "qlz.c10", Args: js(map[string]interface{}{"Codec": codec / 3, "MaxSize": 1 << 20, "Hostile": hostile})})
+				jobs = append(jobs, Job{Variant: "plain", Mode: "qlz.c10", Args: js(map[string]interface{}{"Codec": codec, "MaxSize": 4 << 20, "Hostile": hostile / 4})})
+			}
+			return jobs
+		},
+	})
 }
